@@ -345,6 +345,81 @@ def _replay(job, phase):
                                      hist=hist))
             else:
                 notes.append('product-rejected')
+    # ---------------------------------------------------------------- solve D: WHICH rule is reported for WHICH scenario
+    # every event gets its own optimal rule: scenario s lives on z in [0,1]^nr (s even) or [-1,0]^nr (s odd) with conditional
+    # mean +-1/2; x_i >= (i+1)|z_c| for the first declared component c of entry i; minimise the worst-case expectation.
+    # Unique optimum per event: slope +(i+1) on c if all its scenarios are even, -(i+1) if all are odd, 0 (intercept i+1) if
+    # it mixes both - so coefficients reported under a wrong scenario label, or differing inside an event, are visible.
+    phase[0] = 'solveD'
+    if any_aff and job.get('tidx', 0) % 2 == 1 and any(rec['decl'][v][i] for v in range(len(sizes)) for i in range(sizes[v])):
+        import pandas as pd
+        mD = _new_model(ns, labels)
+        zD = mD.rvar(nr)
+        xD = [mD.dvar(sizes[q], vtypes[q]) for q in range(len(sizes))]
+        slD = []
+        for step in hist:
+            _apply(step, xD, zD, slD, labels, ns)
+        fD = mD.ambiguity()
+        for sc_ in range(ns):
+            sgn = 1.0 if sc_ % 2 == 0 else -1.0
+            fD[_lab(labels, sc_)].suppset(zD >= min(0.0, sgn), zD <= max(0.0, sgn))
+            fD[_lab(labels, sc_)].exptset(E(zD) == np.full(nr, 0.5 * sgn))
+        fD.probset(mD.p == 1.0 / ns)
+        mD.minsup(E(sum(x.sum() for x in xD)), fD)
+        comp_of = {}
+        for v in range(len(sizes)):
+            for i in range(sizes[v]):
+                cc = (rec['decl'][v][i] or [1])[0]
+                comp_of[(v, i)] = cc
+                mD.st(xD[v][i] >= (i + 1) * zD[cc - 1], xD[v][i] >= -(i + 1) * zD[cc - 1])
+        try:
+            mD.solve(display=False)
+            okD = mD.solution is not None
+        except Exception as e:
+            import traceback
+            if not any('/rsome/' in fr.filename for fr in traceback.extract_tb(e.__traceback__)):
+                raise
+            okD = False
+            findings.append(dict(sig='C13:solve-raised-eventwise-affine:' + type(e).__name__, prop='C13', what='solve of the event-wise affine model raised %r' % e, hist=hist))
+        if okD:
+            for v in range(len(sizes)):
+                if not any(rec['decl'][v][i] for i in range(sizes[v])):
+                    continue
+                blocks = rec['ea'][v]
+                try:
+                    coef = xD[v].get(zD)
+                    icpt = xD[v].get()
+                except Exception as e:
+                    findings.append(dict(sig='C12:coef-query-raised:' + type(e).__name__, prop='C12', what='x.get(z) / x.get() raised %r' % e, hist=hist))
+                    continue
+                for sc_ in range(ns):
+                    blk = next(b for b in blocks if sc_ in b)
+                    par = set(q % 2 for q in blk)
+                    sgn = 0.0 if len(par) == 2 else (1.0 if 0 in par else -1.0)
+                    lab = _lab(labels, sc_)
+                    cs = np.array(coef[lab] if isinstance(coef, pd.Series) else coef, dtype=float).reshape(sizes[v], nr)
+                    ic = np.array(icpt[lab] if isinstance(icpt, pd.Series) else icpt, dtype=float).reshape(-1)
+                    bad = None
+                    for i in range(sizes[v]):
+                        if not rec['decl'][v][i]:
+                            continue
+                        want_b = sgn * (i + 1)
+                        want_a = (i + 1) if sgn == 0.0 else 0.0
+                        got_b = cs[i, comp_of[(v, i)] - 1]
+                        if abs(got_b - want_b) > 1e-5 or abs(ic[i] - want_a) > 1e-5:
+                            bad = (i, want_a, want_b, float(ic[i]), float(got_b))
+                            break
+                    if bad:
+                        others = sorted(set(round(float(np.array(coef[_lab(labels, q)] if isinstance(coef, pd.Series) else coef, dtype=float).reshape(sizes[v], nr)[bad[0], comp_of[(v, bad[0])] - 1]), 6)
+                                            for q in blk))
+                        kind = 'differs-within-event' if len(others) > 1 else 'rule-of-another-event'
+                        for pr in ('C12', 'C13'):
+                            findings.append(dict(sig='%s:decision-rule-coefficients:%s' % (pr, kind), prop=pr,
+                                                 what='x%d[%d] in scenario %d (event %s): reported rule %.6g + %.6g z_%d, the optimal rule of that event is %.6g + %.6g z_%d'
+                                                      % (v + 1, bad[0], sc_, blk, bad[3], bad[4], comp_of[(v, bad[0])], bad[1], bad[2], comp_of[(v, bad[0])]),
+                                                 ea=blocks, hist=hist))
+                        break
+            notes.append('coefficients-checked')
     return dict(findings=findings, drift=drift, notes=notes, hsig=hsig, solved=True, outs=outs,
                 objA=objA)
 
